@@ -488,6 +488,10 @@ class SynthObject(gpp.UGenParameter, metaclass=MetaSynthObject):
                     ugen = input.source_ugen
                 else:
                     ugen = input
+                if ugen._synthdef is not self._synthdef:
+                    raise ValueError(
+                        f'{type(self).__name__} input {type(ugen).__name__} '
+                        'was not created by this SynthDef graph function')
                 self._antecedents.add(ugen)
                 ugen._descendants.add(self)
         for ugen in self._width_first_antecedents:
